@@ -211,7 +211,16 @@ static void run_op(const std::vector<std::string> &w, const std::string &, out &
             if (w[2] == "trk") mach.reset(new UMachine<Tracked>(K));
             else mach.reset(new UMachine<int>(K));
         }
-        o.result = mach ? "ok" : "bad-reset";
+        o.result = (mach || (w.size() == 2 && w[1] == "premain")) ? "ok" : "bad-reset";
+        return;
+    }
+    if (w[0] == "premain")
+    {
+        // what the static objects with init_priority(101) computed before main()
+        o.result = std::string("c=") + premain_c() + " p=" + premain_p();
+        if (std::string(premain_c()) != "1/2[1] 3/0[1,2,3] 3:abc" || std::string(premain_p()) != "1/2[1] 3/0[1,2,3] 3:abc")
+            o.fail("operations run before main() gave " + o.result);
+        o.tag("before-main");
         return;
     }
     if (!mach)
@@ -220,6 +229,19 @@ static void run_op(const std::vector<std::string> &w, const std::string &, out &
         return;
     }
     mach->op(w, o);
+}
+
+// the width of m_size of one instantiation, read out of the compiled code (gen passes it to the model)
+static int width_of(bool p, bool str, bool trk, size_t N)
+{
+    static std::map<std::string, int> cache;
+    std::string key = std::string(p ? "p" : "c") + (str ? "s" : trk ? "t" : "i") + std::to_string(N);
+    auto it = cache.find(key);
+    if (it != cache.end()) return it->second;
+    std::unique_ptr<IMachine> m(pick(p, str, N)(str, trk, N, 1, false));
+    int w = m ? m->width() : 0;
+    cache[key] = w;
+    return w;
 }
 
 // ---------------------------------------------------------------- generator
@@ -236,7 +258,8 @@ static int val(rng &r) { return (int)r.range(1, 99); }
 static int placeno = 0;
 static std::string vreset(const VCfg &c, int K)
 {
-    return std::string("reset sv ") + c.tw + " " + c.ty + " " + S(c.N) + " " + S(K) + ((placeno++ & 1) ? " canary" : " heap");
+    return std::string("reset sv ") + c.tw + " " + c.ty + " " + S(c.N) + " " + S(K) + ((placeno++ & 1) ? " canary" : " heap") +
+           "\nwidth " + S(width_of(c.tw[0] == 'p', false, c.ty[0] == 't', (size_t)c.N));
 }
 static std::string vals(rng &r, int n)
 {
@@ -266,7 +289,7 @@ static void gen_vec(rng &r, bool thorough)
                 // A. constructors with every argument length 0..2N (+1)
                 if (!port)
                     for (int len = 0; len <= 2 * N + 1; len++)
-                        for (const char *k : {"range", "il"})
+                        for (const char *k : {"range", "il", "rangev", "ranges"})
                         {
                             P(vreset(c, 3));
                             P(std::string(k) + " 0" + vals(r, len));
@@ -430,7 +453,8 @@ static std::string hb(int c)
 }
 static std::string sreset(const char *tw, int N, int K)
 {
-    return std::string("reset ss ") + tw + " " + S(N) + " " + S(K) + ((placeno++ & 1) ? " canary" : " heap");
+    return std::string("reset ss ") + tw + " " + S(N) + " " + S(K) + ((placeno++ & 1) ? " canary" : " heap") +
+           "\nwidth " + S(width_of(tw[0] == 'p', true, false, (size_t)N));
 }
 static std::string rstr(rng &r, int len, bool nul)
 {
@@ -498,9 +522,24 @@ static void gen_str(rng &r, bool thorough)
             {
                 P("sget 0 " + S(i));
                 P("sset 0 " + S(i) + " " + hb(0x30 + i));
+                P("ssetv 0 " + S(i) + " " + hb(0x40 + i) + " " + S(1 + (i & 1)));
+                P("sgetany 0 " + S(i));
             }
+            P("sgetany 0 " + S(N)); // the terminator slot
+            P("sgetany 0 " + S(N + 1)); // outside the storage: outside the contract
             P("scstr 0");
             P("sdel 0");
+            // operator[] at every position of the storage at every fill level
+            for (int k = 0; k <= N; k++)
+            {
+                P(sreset(tw, N, 1));
+                P("sptr 0 " + hx(rstr(r, k, false)));
+                for (int i = 0; i <= N; i++)
+                    P("sgetany 0 " + S(i));
+                P("scstr 0");
+                P("sgetany 0 " + S(k));
+                P("sdel 0");
+            }
             // E. random histories
             for (int q = 0; q < (thorough ? 160 : 8); q++)
             {
@@ -891,6 +930,248 @@ static void gen_access(rng &r, bool)
             }
 }
 
+// ---------------------------------------------------------------- N = 0, long inputs, before main()
+static void gen_edge(rng &r, bool)
+{
+    // the degenerate capacity: every growing operation is a reject
+    for (const char *tw : {"c", "p"})
+    {
+        bool port = tw[0] == 'p';
+        for (const char *ty : {"int", "trk"})
+        {
+            VCfg c{tw, ty, 0};
+            P(vreset(c, 3));
+            P("new 0");
+            P("push 0 5");
+            P("emplace 0 6");
+            P("resize 0 3");
+            P("thr 0 push 0 7");
+            P("copy 1 0");
+            P("move 2 1");
+            P("acopy 0 1");
+            P("amove 1 2");
+            P("acopy 0 0");
+            P("at 0 0");
+            P("front 0");
+            P("wfill 0 3");
+            P("wat 0 0 1 0");
+            P("clear 0");
+            if (!port) P("erase 0 0 0");
+            P("del 2");
+            if (!port)
+            {
+                P("range 2 1 2");
+                P("del 2");
+                P("il 2 3");
+                P("del 2");
+                P("rangev 2 4 5 6");
+                P("del 2");
+                P("ranges 2 7");
+                P("thr 0 il 1 1 2");
+            }
+            P("finish");
+        }
+        P(sreset(tw, 0, 2));
+        P("snew 0");
+        P("spush 0 41");
+        P("scstr 0");
+        P("sgetany 0 0");
+        P("sptr 1 " + hx("abc"));
+        P("scstr 1");
+        P("sget 1 0");
+        P("sdel 1");
+        P("sptr 1 " + hx(std::string()));
+        P("scstr 1");
+        P("sdel 1");
+        if (port)
+        {
+            P("sptrlen 1 " + hx("abc") + " 2");
+            P("sadd 1 42");
+            P("scstr 1");
+            P("sclear 1");
+        }
+        P("sdel 0");
+    }
+    // one argument of more than 300 KiB for each linear routine
+    for (const char *tw : {"c", "p"})
+    {
+        bool port = tw[0] == 'p';
+        const int N = 307200;
+        P(sreset(tw, N, 1));
+        P("sptr 0 " + hx(rstr(r, N + 1, false)));
+        P("scstr 0");
+        P("spush 0 41");
+        P("sget 0 " + S(N - 1));
+        P("sset 0 " + S(N - 1) + " 5a");
+        P("scstr 0");
+        P("sdel 0");
+        if (port)
+        {
+            P("sptrlen 0 " + hx(rstr(r, N + 7, true)) + " " + S(N + 7));
+            P("sadd 0 42");
+            P("scstr 0");
+            P("sdel 0");
+        }
+        if (!port)
+            for (const char *k : {"range", "il"})
+            {
+                P(vreset(VCfg{tw, "int", 65536}, 1));
+                P(std::string(k) + " 0" + vals(r, 80000)); // 320 000 bytes of int
+                P("push 0 " + S(val(r)));
+                P("finish");
+            }
+    }
+    // stoi / stol / stoll / stod(static_string) of std_portable.h: digit strings up to exactly N characters
+    for (int N : {1, 2, 3, 8})
+        for (int len = 0; len <= N + 1; len++)
+        {
+            P(sreset("p", N, 1));
+            std::string d;
+            for (int i = 0; i < len; i++) d.push_back((char)('0' + (i == 0 && len > 1 ? r.range(1, 9) : r.range(0, 9))));
+            if (len >= 2 && r.chance(30)) d[0] = '-';
+            P("sptr 0 " + hx(d));
+            P("sstoi 0");
+            P("spush 0 37");
+            P("sstoi 0");
+            P("sgetany 0 " + S(N));
+            P("sdel 0");
+        }
+    P(sreset("c", 3, 1));
+    P("sptr 0 " + hx("12"));
+    P("sstoi 0"); // not in this twin
+    P("sdel 0");
+    P("reset premain");
+    P("premain");
+}
+
+// ---------------------------------------------------------------- writes through the accessors
+// wat r i x k (k = 0 operator[], 1 data()[i], 2 *(begin()+i)), wfront r x, wback r x,
+// wfill r x (range-for), take r i (T y = std::move(v[i])); swap through a third object.
+static void gen_write(rng &r, bool thorough)
+{
+    for (const char *tw : {"c", "p"})
+        for (const char *ty : {"int", "trk"})
+            for (int N : {1, 2, 3, 8})
+            {
+                VCfg c{tw, ty, N};
+                bool port = tw[0] == 'p';
+                for (int k = 0; k <= N; k++)
+                {
+                    if (N == 8 && k > 1 && k < N - 1) continue;
+                    P(vreset(c, 3));
+                    fill(r, 0, k);
+                    for (int i = 0; i <= k; i++) // i = k: outside the contract
+                        for (int via = 0; via < 3; via++)
+                            P("wat 0 " + S(i) + " " + S(val(r)) + " " + S(via));
+                    P("wfront 0 " + S(val(r)));
+                    P("wback 0 " + S(val(r)));
+                    P("back 0");
+                    P("wfill 0 " + S(val(r)));
+                    for (int i = 0; i <= k; i++)
+                        P("take 0 " + S(i));
+                    P("copy 1 0"); // copies of moved-from elements
+                    P("wfill 1 " + S(val(r)));
+                    P("push 0 " + S(val(r)));
+                    P("wback 0 " + S(val(r)));
+                    if (!port) { P("erase 0 0 1"); P("wfront 0 " + S(val(r))); }
+                    P("resize 0 " + S(N));
+                    P("wat 0 " + S(N - 1) + " " + S(val(r)) + " 0");
+                    P("take 0 " + S(N - 1));
+                    P("wat 0 " + S(N - 1) + " " + S(val(r)) + " 2");
+                    // std::swap(a, b) spelled out: T tmp(std::move(a)); a = std::move(b); b = std::move(tmp);
+                    P("move 2 0");
+                    P("amove 0 1");
+                    P("amove 1 2");
+                    P("del 2");
+                    P("wfill 0 " + S(val(r)));
+                    P("clear 0");
+                    P("wfill 0 " + S(val(r)));
+                    P("wfront 0 1"); // empty: outside the contract
+                    P("finish");
+                }
+                for (int q = 0; q < (thorough ? 60 : 3); q++)
+                {
+                    P(vreset(c, 2));
+                    P("new 0");
+                    P("new 1");
+                    int nops = (int)r.range(10, 40);
+                    for (int t = 0; t < nops; t++)
+                    {
+                        int a = (int)r.below(2), w = (int)r.below(100);
+                        if (w < 25) P("push " + S(a) + " " + S(val(r)));
+                        else if (w < 45) P("wat " + S(a) + " " + S(r.range(0, N)) + " " + S(val(r)) + " " + S(r.below(3)));
+                        else if (w < 55) P("take " + S(a) + " " + S(r.range(0, N - 1)));
+                        else if (w < 62) P("wfill " + S(a) + " " + S(val(r)));
+                        else if (w < 70) P((r.chance(50) ? "wfront " : "wback ") + S(a) + " " + S(val(r)));
+                        else if (w < 78) P("resize " + S(a) + " " + S(r.range(0, N + 1)));
+                        else if (w < 86) P("acopy " + S(a) + " " + S(1 - a));
+                        else if (w < 92 && !port) P("erase " + S(a) + " 0 1");
+                        else P("amove " + S(a) + " " + S(1 - a));
+                    }
+                    P("finish");
+                }
+            }
+    // the counter-boundary capacities: a write into the last slot of a full container
+    for (const char *tw : {"c", "p"})
+        for (int N : {255, 256, 257})
+        {
+            VCfg c{tw, "trk", N};
+            P(vreset(c, 1));
+            P("new 0");
+            P("resize 0 " + S(N));
+            P("wat 0 " + S(N - 1) + " 7 0");
+            P("wback 0 9");
+            P("wat 0 " + S(N) + " 7 0"); // outside the contract
+            P("take 0 " + S(N - 1));
+            P("wfill 0 3");
+            P("finish");
+        }
+}
+
+// ---------------------------------------------------------------- erase with a throwing move-assignment
+// `thra a erase r i j`: every [i,j) of every fill level with the throw at EVERY assignment
+// (a = 0 .. size-j; the last = nothing throws), followed by operations that step on the result.
+static void gen_erase_throw(rng &r, bool thorough)
+{
+    for (int N : {1, 2, 3, 8})
+    {
+        VCfg c{"c", "trk", N};
+        for (int k = 0; k <= N; k++)
+        {
+            if (N == 8 && !(k == N || k == N - 1 || k == 3)) continue;
+            for (int i = 0; i <= k; i++)
+                for (int j = i; j <= k; j++)
+                    for (int a = 0; a <= k - j; a++)
+                    {
+                        if (N == 8 && !thorough && !(a == 0 || a == k - j || a == k - j - 1) && !r.chance(25)) continue;
+                        if (N == 8 && !thorough && !(i == 0 || j == k || j == i + 1) && !r.chance(25)) continue;
+                        P(vreset(c, 2));
+                        fill(r, 0, k);
+                        P("thra " + S(a) + " erase 0 " + S(i) + " " + S(j));
+                        P("push 0 " + S(val(r)));
+                        if (r.chance(50)) P("copy 1 0");
+                        if (r.chance(50)) P("thra 0 erase 0 0 1");
+                        if (r.chance(50)) P("erase 0 0 " + S(r.range(0, 1)));
+                        if (r.chance(30)) P("wfill 0 " + S(val(r)));
+                        if (r.chance(30)) P("resize 0 " + S(r.range(0, N)));
+                        P("finish");
+                    }
+        }
+    }
+    // outside the contract on both sides: the portable twin has no erase, int cannot throw
+    P(vreset(VCfg{"p", "trk", 2}, 1));
+    P("new 0");
+    P("push 0 1");
+    P("thra 0 erase 0 0 1");
+    P("finish");
+    P(vreset(VCfg{"c", "int", 2}, 1));
+    P("new 0");
+    P("push 0 1");
+    P("push 0 2");
+    P("thra 0 erase 0 0 1");
+    P("finish");
+}
+
 static void gen_ua(rng &r, bool thorough)
 {
     for (const char *ty : {"int", "trk"})
@@ -954,6 +1235,9 @@ int main(int argc, char **argv)
             gen_big(r, th);
             gen_exc(r, th);
             gen_access(r, th);
+            gen_write(r, th);
+            gen_erase_throw(r, th);
+            gen_edge(r, th);
         },
         run_op);
 }
